@@ -291,6 +291,15 @@ def families(env):
                                     mgr.BVXor(mgr.BVRor(mgr.BVRol(a, 3), 1), mgr.BVExtract(mgr.BVSExt(b, 4), 2, 9)),
                                     lambda t, i: mgr.Ite(mgr.BVULE(t, vl[2]), t, mgr.BVSub(t, onev)),
                                     lambda t: mgr.Equals(mgr.BVComp(t, vl[1]), mgr.BV(1, 1)))
+    # a small quantified conjunct beside a shared quantifier-free tower (whatever a walker does for formulas that are not
+    # quantifier-free must not follow the tree of the rest)
+    def beside_quantifier(base):
+        def build(n, pattern):
+            q = mgr.Symbol("q_bound", I)
+            return mgr.And(mgr.ForAll([q], mgr.GT(mgr.Plus(q, il[0]), mgr.Int(0))), F[base](n, pattern))
+        return build
+    for base in ("plus-minus", "bv-ite-then", "iff", "store-select"):
+        F["beside-quantifier:" + base] = beside_quantifier(base)
     return F
 
 
@@ -379,6 +388,8 @@ def check_family(run, fam, pattern, n, ops_subset=None):
     """Sharing families: abort budget and doubling test."""
     if fam.startswith("direct:"):
         ops_subset = NON_REWRITING
+    if fam.startswith("beside-quantifier:"):
+        ops_subset = NON_REWRITING | {"simplify", "nnf", "size-tree", "size-leaves"}
     results = {}
     for size in (n, 2 * n):
         env = Environment()
@@ -458,6 +469,8 @@ def check_deep(run, fam, depth, ops_subset=None):
     """Chains of depth >= 20000 under the default recursion limit."""
     if fam.startswith("direct:"):
         ops_subset = NON_REWRITING
+    if fam.startswith("beside-quantifier:"):
+        ops_subset = NON_REWRITING | {"simplify", "nnf", "size-tree", "size-leaves"}
     assert sys.getrecursionlimit() <= 1000
     env = Environment()
     with env:
@@ -544,7 +557,7 @@ def main():
         "between two levels; TimesDistributor and the tree printers are not measured (exponential output by design)",
         "size is measured only for TREE_NODES / LEAVES / DEPTH (the other measures return per-node sets)"])
     thorough = chk.tier == "thorough"
-    FAMS.extend(sorted(k for k in families(Environment()) if k.startswith("direct:") and k not in FAMS))
+    FAMS.extend(sorted(k for k in families(Environment()) if (k.startswith("direct:") or k.startswith("beside-quantifier:")) and k not in FAMS))
     n = 60 if thorough else 30
     depth = 40000 if thorough else 20000
     items = []
